@@ -33,6 +33,107 @@ def run(ctx: Ctx, chk) -> None:
     from .c03 import state1
 
     chk.run_rule(state1, ctx)
+    chk.run_rule(reply_delivered, ctx)
+    chk.run_rule(tz_untouched, ctx)
+
+
+def tz_untouched(ctx: Ctx, chk) -> None:
+    rule = "TZ-UNTOUCHED"
+    chk.rule(rule, "the time reply is the controller's *local* time, i.e. it depends on the process's time zone: no code of the package (library or its CLI) changes that zone - no store into os.environ['TZ'] / os.putenv('TZ', ..) / os.environ.update(TZ=..) and no time.tzset()")
+    n = 0
+    bad = 0
+
+    def full_name(m, local: dict, e) -> str:
+        d = ctx.prog.resolve_expr(m, e) if isinstance(e, (ast.Name, ast.Attribute)) else None
+        if d is not None and d.kind == "external":
+            return d.obj
+        # names imported inside the function
+        parts = []
+        cur = e
+        while isinstance(cur, ast.Attribute):
+            parts.append(cur.attr)
+            cur = cur.value
+        if isinstance(cur, ast.Name) and cur.id in local:
+            return ".".join([local[cur.id]] + parts[::-1])
+        return ""
+
+    for f in list(ctx.prog.all_functions()) + [None]:
+        mods = [f.module] if f is not None else list(ctx.prog.modules.values())
+        for m in mods:
+            nodes = list(ctx.own_nodes(f)) if f is not None else [x for st in m.tree.body if not isinstance(st, (ast.FunctionDef, ast.AsyncFunctionDef, ast.ClassDef)) for x in ast.walk(st)]
+            local: dict = {}
+            for node in nodes:
+                if isinstance(node, ast.Import):
+                    for a in node.names:
+                        local[a.asname or a.name.split(".")[0]] = a.name if a.asname else a.name.split(".")[0]
+                elif isinstance(node, ast.ImportFrom) and node.module and not node.level:
+                    for a in node.names:
+                        local[a.asname or a.name] = f"{node.module}.{a.name}"
+            for node in nodes:
+                what = None
+                if isinstance(node, (ast.Assign, ast.AugAssign, ast.Delete)):
+                    tg = node.targets if isinstance(node, (ast.Assign, ast.Delete)) else [node.target]
+                    for t in tg:
+                        if isinstance(t, ast.Subscript) and isinstance(t.slice, ast.Constant) and t.slice.value == "TZ":
+                            if full_name(m, local, t.value) in ("os.environ", "posix.environ"):
+                                what = norm(node)[:60]
+                elif isinstance(node, ast.Call):
+                    full = full_name(m, local, node.func)
+                    if full in ("time.tzset",):
+                        what = norm(node)[:60]
+                    elif full in ("os.putenv", "os.unsetenv") and node.args and isinstance(node.args[0], ast.Constant) and node.args[0].value == "TZ":
+                        what = norm(node)[:60]
+                    elif full in ("os.environ.update", "os.environ.setdefault", "os.environ.pop", "os.environ.__setitem__") and (any(kw.arg == "TZ" for kw in node.keywords) or any(isinstance(a, ast.Constant) and a.value == "TZ" for a in node.args) or any(isinstance(a, ast.Dict) and any(isinstance(k_, ast.Constant) and k_.value == "TZ" for k_ in a.keys) for a in node.args)):
+                        what = norm(node)[:60]
+                    if full.startswith(("time.", "os.environ", "os.putenv")):
+                        n += 1
+                if what is not None:
+                    bad += 1
+                    chk.instance(rule)
+                    where = f"{m.relpath}:{node.lineno}"
+                    owner = f.fq if f is not None else m.name
+                    chk.refute(rule, f"{owner}::{what}", f"`{what}` changes the time zone of the process: from then on the time reply carries that zone's wall clock instead of the controller's local time", where)
+    if not bad:
+        chk.instance(rule)
+        chk.ok(rule, "aiomysensors::no-time-zone-change", f"no store into os.environ['TZ'] and no time.tzset() in {len(ctx.prog.modules)} modules ({n} calls into time / os.environ looked at)", "src/aiomysensors")
+    chk.floor(rule, "modules scanned", len(ctx.prog.modules), 10)
+
+
+def reply_delivered(ctx: Ctx, chk) -> None:
+    rule = "REPLY-DELIVERED"
+    chk.rule(rule, "a reaction the statement specifies is written: on the way from a handler's gateway.send(reply) to the transport nothing but a transport error can stop the reply - for every protocol version, every exception that can propagate out of an incoming handler through Gateway.send (the outgoing handler and its helpers included - interprocedural escape analysis) is a TransportError; a check in the outgoing path that refuses some replies (an unknown value type, a node that is not registered) makes the controller stay silent where the statement demands a write")
+    eea = ctx.eea()
+    cells = tables.handler_cells(ctx)
+    transport = "aiomysensors.exceptions.TransportError"
+    n = 0
+    seen = set()
+    send_tag = SEND.replace("aiomysensors.", "")
+    for V in ctx.versions:
+        for cell, cal in cells[V].items():
+            if cal is None:
+                continue
+            name = cal.chain()[-1].func.name
+            esc = eea.escapes(Frame(cal, V))
+            for (exc, site), path in sorted(esc.items(), key=lambda kv: (kv[0][1].loc(), kv[0][0])):
+                if not any(p_.replace("aiomysensors.", "") == send_tag for p_ in path):
+                    continue
+                short = exc.rsplit(".", 1)[-1]
+                key = f"{site.key()}::{short}"
+                if key in seen:
+                    continue
+                seen.add(key)
+                n += 1
+                chk.instance(rule)
+                if eea.issub(exc, transport):
+                    chk.ok(rule, key, f"{short}: the write itself failed", site.loc(), sample=n <= 2)
+                elif site.kind == "getattr-absent" and site.func == tables.DISPATCH_OUT:
+                    # a command without an outgoing handler: the replies are built with the commands the statement
+                    # names (internal / set), whose handlers exist - totality of the lookup is C12's EXHAUST-OUT
+                    chk.ok(rule, key, "a missing handler for some other command: not on the path of a reply (judged by C12)", site.loc(), sample=False)
+                else:
+                    chk.refute(rule, key, f"{short} can stop a reply of {name} (protocol {V}) between gateway.send and the transport, at `{site.text[:70]}`: the reaction the statement specifies for the received message is then not written", site.loc(), version=V, path=[p_.replace("aiomysensors.", "") for p_ in path])
+    chk.floor(rule, "escapes through Gateway.send", n, 1)
+    eea.check_complete()
 
 
 def message_term(ctx: Ctx, f: FuncInfo, e: ast.expr):
